@@ -100,6 +100,11 @@ static int opBack(HM& c) { return c.back(); }
 static int opBack(HS& c) { return c.back().v; }
 static int opBack(PM& c) { return c.back(); }
 
+// the const overloads of front()/back() must designate the stored value (maps) / key (set) itself, not a temporary
+static bool constEndsOk(const HM& c) { HM::Iterator b = c.begin(), l = --HM::Iterator(c.end()); return (const void*)&c.front() == (const void*)&*b && (const void*)&c.back() == (const void*)&*l; }
+static bool constEndsOk(const HS& c) { HS::Iterator b = c.begin(), l = --HS::Iterator(c.end()); return (const void*)&c.front() == (const void*)&*b && (const void*)&c.back() == (const void*)&*l; }
+static bool constEndsOk(const PM& c) { PM::Iterator b = c.begin(), l = --PM::Iterator(c.end()); return (const void*)&c.front() == (const void*)&*b && (const void*)&c.back() == (const void*)&*l; }
+
 // ---- generic part --------------------------------------------------------------------------
 template<class C> static long posOf(const C& c, const typename C::Iterator& it)
 {
@@ -210,7 +215,11 @@ template<class C> static void observeTable(C& c)
   for(int k = 0; k < g_dom; ++k)
     printf("%d", (int)c.contains(Key(k)));
   if(c.isEmpty()) printf(" fr=- bk=-");
-  else printf(" fr=%d bk=%d", opFront(c), opBack(c));
+  else
+  {
+    printf(" fr=%d bk=%d", opFront(c), opBack(c));
+    if(!constEndsOk(c)) printf(" CONST-FRONT-BACK-NOT-THE-ELEMENT");
+  }
   // backward traversal through `prev` must be the reverse of the forward one
   long back = cnt;
   bool okBack = true;
